@@ -969,7 +969,21 @@ def cond_value(nm, node, val):
         return x or cond_value(nm, b, val)
     if m['k'] == 'UnaryOperator' and m.get('op') == '!':
         return not cond_value(nm, kids(m)[0], val)
-    return atom_value(nm.atom(m), val)
+    try:
+        return atom_value(nm.atom(m), val)
+    except Unknown:
+        # non-emptiness of a bitboard expression: a union is non-empty iff one of its parts is, and two single squares
+        # intersect iff they are the same square
+        if m['k'] == 'BinaryOperator' and m.get('op') == '&':
+            a, b = (nm.resolve(x) for x in kids(m))
+            for u, w in ((a, b), (b, a)):
+                if u['k'] == 'BinaryOperator' and u.get('op') == '|':
+                    parts = [{'k': 'BinaryOperator', 'op': '&', 'ch': [q, w], 'i': -1, 't': m.get('t')} for q in kids(u)]
+                    return any([cond_value(nm, q, val) for q in parts])
+            if all((x.get('callee') or {}).get('n') == 'engine::square_bb' for x in (a, b)):
+                x, y = nm.s(kids(a)[1]), nm.s(kids(b)[1])
+                return atom_value(('eq',) + tuple(sorted([x, y])), val)
+        raise
 
 
 class SymLin:
